@@ -279,7 +279,7 @@ def _job(args):
                 out["stats"]["projects_with_symlinks"] = out["stats"].get("projects_with_symlinks", 0) + 1
         check_project(root, dirs, files, None, out, "random")
         out["stats"]["random_projects"] = out["stats"].get("random_projects", 0) + 1
-    return out
+    return common.tag_job(out, __name__, "_job", list(args))
 
 
 def rescan_after_edit(ctx: Ctx, n: int):
